@@ -381,3 +381,14 @@ class Check:
 def workdir(prefix):
     os.makedirs(os.path.join(SCRATCH, "work"), exist_ok=True)
     return tempfile.mkdtemp(prefix=prefix + "_", dir=os.path.join(SCRATCH, "work"))
+
+
+def pct(s):
+    """percent-encode a string for the line protocol (mirror of XfemmVerif.pctDecode)"""
+    out = []
+    for ch in s:
+        if ch.isalnum() and ord(ch) < 128 or ch in "_-.":
+            out.append(ch)
+        else:
+            out.append("".join("%%%02X" % b for b in ch.encode("utf-8")))
+    return "".join(out) or "%00"
